@@ -80,7 +80,7 @@ fn end_timer(t: T, how: End) -> Option<f64> {
 }
 
 /// 28 timers (shared / local x precise / coarse clock x three ways of ending), started 45 ms apart on their own threads and
-/// held for 120 ms each (the first four for 1.1 s), so that together they are alive across every instant of more than a second (any whole-second or
+/// held for 120 ms each (the first two for 4.4 s - longer than 2^32 ns -, the next two for 1.1 s), so that together they are alive across every instant of more than a second (any whole-second or
 /// other clock boundary included). Each works on its own histogram. The recorded duration must lie between what the harness
 /// measured inside the timer's lifetime and around it (std::time::Instant, the same monotonic clock), with 30 ms of
 /// tolerance for the coarse clock's tick and millisecond truncation. Returns the number of timers checked.
@@ -106,7 +106,7 @@ fn held_timers() -> Result<usize, (String, String)> {
                     };
                     let inner0 = Instant::now();
                     // the first four (one of every clock / kind) stay alive for more than a second
-                    std::thread::sleep(Duration::from_millis(if k < 4 { 1100 } else { 120 }));
+                    std::thread::sleep(Duration::from_millis(if k < 2 { 4400 } else if k < 4 { 1100 } else { 120 }));
                     let inner = inner0.elapsed().as_secs_f64();
                     let returned = end_timer(t, how);
                     let outer = outer0.elapsed().as_secs_f64();
@@ -151,7 +151,7 @@ impl Property for C18 {
          clear / drop, create local (a quarter of the histories run on the child of a HistogramVec: local histograms may then be the cached children of local \
          vectors, and one of these may remove the label values, which flushes what it holds). Oracle: count model (shared count and every local's pending count after every operation; +1 \
          exactly for record/drop, +0 for discard; a local timer's observation reaches the shared histogram when the timer dies), \
-         returned durations finite and >= 0 (a final stage holds 28 timers of every flavour for 120 ms - four of them for 1.1 s -, staggered over more than a second, and requires the recorded duration to lie within the measured lifetime +- 30 ms), and the shared sample sum grows by exactly the returned duration; a fifth of the histories run on a histogram with 47 bounds (10 ns x 1.5^k) where the duration \
+         returned durations finite and >= 0 (a final stage holds 28 timers of every flavour for 120 ms - two of them for 4.4 s (more than 2^32 ns), two for 1.1 s -, staggered over more than a second, and requires the recorded duration to lie within the measured lifetime +- 30 ms), and the shared sample sum grows by exactly the returned duration; a fifth of the histories run on a histogram with 47 bounds (10 ns x 1.5^k) where the duration \
          returned by stop_and_record must be counted under exactly the bounds not smaller than it. Non-trivial: >=3 \
          timers alive at once, ended in an order different from creation, with >=1 discard and >=1 cross-thread end. \
          Distinct = decoded choices."
